@@ -53,6 +53,9 @@ def _run_stream(case):
     from harness.vclock import run_virtual, settle
 
     logging.getLogger("tornado.general").setLevel(logging.CRITICAL)
+    # write() registers `lambda f: f.exception()` on each future; on a cancelled future that callback raises
+    # CancelledError, which asyncio reports through the loop's exception handler (log noise only)
+    logging.getLogger("asyncio").setLevel(logging.CRITICAL)
 
     events = []
     futs = []
@@ -84,8 +87,7 @@ def _run_stream(case):
             if not reported[i] and f.done():
                 reported[i] = True
                 if f.cancelled():
-                    events.append([Tag("cancelled"), i])
-                    continue
+                    continue        # the caller's cancel() was already recorded
                 e = f.exception()
                 if e is None:
                     events.append([Tag("ok"), i])
@@ -151,6 +153,15 @@ def _run_stream(case):
             events.append([Tag("write"), i, holder["raw"]])
             collections.deque.append(self, item)
 
+        def popleft(self):
+            """_handle_write dequeues a future just before future_set_result_unless_cancelled: report
+            the resolutions so far, then record a cancelled future being skipped."""
+            item = collections.deque.popleft(self)
+            _poll_writes()
+            if item[1].cancelled():
+                events.append([Tag("skip"), futs.index(item[1])])
+            return item
+
     async def scenario(loop):
         s = S(max_write_buffer_size=case["max"])
         s._write_futures = _FutList()
@@ -184,6 +195,11 @@ def _run_stream(case):
                         events.append(Tag("full"))
                     except StreamClosedError:
                         events.append(Tag("closed"))
+                elif o[0] == "x":
+                    if o[1] < len(futs) and futs[o[1]].cancel():
+                        events.append([Tag("cancel"), o[1]])
+                    else:
+                        events.append([Tag("cancelno"), o[1]])
                 elif o[0] == "r":
                     deliver = (not s.closed()) and s._state is not None and bool(s._state & IOLoop.WRITE)
                     events.append([Tag("ready"), deliver])
@@ -280,6 +296,8 @@ def coq_input(case):
                 ops.append("OWrite %s" % G.gbytes(o[2].encode("latin-1")))
             elif o[0] == "r":
                 ops.append("OReady")
+            elif o[0] == "x":
+                ops.append("OCancel %d" % o[1])
             else:
                 ops.append("OClose")
         sc = ["Block" if st == "b" else "Errno" if st == "e" else "Accept %d" % st for st in case["script"]]
@@ -345,6 +363,8 @@ def py_check(case, obs):
     wend = {}          # future id -> end offset of its data in `written`
     pending = []
     settled = []
+    cancelled = set()
+    queued_cancelled = set()
     is_closed = False
     ops = list(case["ops"])
     op_i = -1
@@ -392,6 +412,10 @@ def py_check(case, obs):
                     return False
             elif cur[0] == "r" and t != "ready":
                 return False
+            elif cur[0] == "x":
+                want = "cancel" if cur[1] in pending else "cancelno"
+                if t != want or e[1] != cur[1]:
+                    return False
             elif cur[0] == "c" and t != "close":
                 return False
         if t == "write":
@@ -411,12 +435,24 @@ def py_check(case, obs):
             sent += e[2]
         elif t == "ok":
             i = e[1]
-            if not pending or pending[0] != i:
+            if i in cancelled or not pending or pending[0] != i:
                 return False
             if wend[i] > len(sent) or written[:wend[i]] != sent[:wend[i]]:
                 return False
             pending.pop(0)
             settled.append(i)
+        elif t == "cancel":
+            pending.remove(e[1])
+            settled.append(e[1])
+            cancelled.add(e[1])
+            queued_cancelled.add(e[1])
+        elif t == "cancelno":
+            pass
+        elif t == "skip":
+            # only a cancelled, still queued future may be skipped, and only once all its bytes are out
+            if e[1] not in queued_cancelled or wend[e[1]] > len(sent):
+                return False
+            queued_cancelled.discard(e[1])
         elif t == "fail":
             if e[1] not in pending:
                 return False
@@ -478,8 +514,10 @@ def _rand_stream(rng, thr, nops, sizes, accepts, p_err=0.04, mx_choices=(None,))
         if r < 0.55:
             ops.append(["w", rng.randrange(5), _payload(j, rng.choice(sizes))])
             j += 1
-        elif r < 0.93:
+        elif r < 0.85:
             ops.append(["r"])
+        elif r < 0.94:
+            ops.append(["x", rng.randrange(0, j + 2)])     # cancel any future, also settled / not yet existing ones
         else:
             ops.append(["c"])
     script = []
@@ -526,6 +564,10 @@ def corpus_cases():
         mk_stream(2, None, [W(0, 1), W(1, 3), ["r"], W(2, 1)], [], False),
         # close while connecting
         mk_stream(2, 4, [W(0, 3), W(1, 3), ["c"], ["r"]], [], True),
+        # a cancelled write future: its bytes still go out in order, it is skipped, later futures resolve on time
+        mk_stream(3, None, [W(0, 2), W(1, 2), W(2, 1), ["x", 1], ["r"], ["r"], ["x", 0], ["x", 7]], ["b", "b", "b", 3, "b"]),
+        # cancelled, then the stream closes: only the live futures fail
+        mk_stream(2, None, [W(0, 3), W(1, 1), ["x", 0], ["c"], ["x", 1]], ["b", "b"]),
         mk_buf(REAL_THR, [["a", 0, 2048, 0], ["a", 5, 1, 0], ["v", 2048], ["p", 10], ["a", 9, 2049, 1], ["v", 2]]),
         mk_buf(2, [["a", 0, 1, 0], ["a", 1, 1, 0], ["a", 2, 1, 0], ["v", 1], ["v", 5], ["p", 0], ["p", 9]]),
     ]
@@ -571,7 +613,7 @@ def gen_cases(rng, tier):
                         continue
                     out.append(mk_buf(thr, [list(alpha[i]) for i in seq] + [["p", 4800]]))
         # exhaustive: stream operation sequences of length <= 4 at threshold 2, all short send scripts
-        salpha = ["w1", "w2", "w3", "r", "c"]
+        salpha = ["w1", "w2", "w3", "r", "c", "x0", "x1"]
         steps = [1, 2, "b", "e"]
         scripts = [[]]
         for n in range(1, 4):
@@ -591,6 +633,8 @@ def gen_cases(rng, tier):
                             if a[0] == "w":
                                 ops.append(["w", j % 2, _payload(j, int(a[1]))])
                                 j += 1
+                            elif a[0] == "x":
+                                ops.append(["x", int(a[1])])
                             else:
                                 ops.append([a])
                         out.append(mk_stream(2, None, ops, sc, conn))
@@ -625,6 +669,7 @@ def classify(case, obs):
         yield "futures-failed=" + str("fail" in tags)
         yield "memoryview-write=" + str(any(o[0] == "w" and o[1] for o in case["ops"]))
         yield "writes=%d" % sum(1 for o in case["ops"] if o[0] == "w")
+        yield "cancelled=" + str("cancel" in tags) + " skipped=" + str("skip" in tags)
         yield "connect=" + ("none" if case.get("conn") is None else "ok" if case["conn"] else "refused")
         yield "connected-with-queued-writes=" + str("connected" in tags and "write" in tags[:tags.index("connected")])
     else:
@@ -676,7 +721,7 @@ TRUSTED_BASE = [
     "memoryview/bytes distinction, bytearray aliasing and CPython buffer-export rules are outside the model (payloads are byte lists)",
 ]
 ASSUMPTIONS = [
-    "callers do not cancel write futures; connect() is called at most once, before any other operation",
+    "connect() is called at most once, before any other operation",
     "write_to_fd returns 0 <= n <= len(view) (the scripted transport clamps)",
 ]
 LEVEL_TEXT = ("Machine-checked (Coq) proofs over an executable model of _StreamBuffer and of BaseIOStream.write/_handle_write/close: "
@@ -689,5 +734,5 @@ LEVEL_TEXT = ("Machine-checked (Coq) proofs over an executable model of _StreamB
               "events. The model is tied to the code by replaying every generated case "
               "on the real classes and comparing full traces including internal buffer layout.")
 LEVEL_NOTE = ("Trusted: Coq kernel/vm_compute; the hand-written model (tied by trace correspondence only); scripted transport and "
-              "scripted socket under the real IOStream.connect/_handle_connect; SSL, future cancellation and real sockets are not modelled.")
+              "scripted socket under the real IOStream.connect/_handle_connect; SSL and real sockets are not modelled.")
 TECHNIQUE = "Coq proof (data refinement + trace invariant by induction over operations) + differential trace correspondence via vm_compute"
